@@ -136,7 +136,18 @@ func runC12(w *World, r *Report, tier string) {
 			break
 		}
 	}
-	r.Check(deferOK, "R2", "xmpp.(*Client).recv#defer-close-quit", w.pos(fn.Pos()), "recv does not unconditionally defer close(keepaliveQuit): the keepalive goroutine outlives the session", "defer close(param) in the entry block")
+	if !deferOK {
+		isClose := func(in ssa.Instruction) bool {
+			c := asCall(in)
+			if c == nil || w.callKey(c) != "builtin.close" {
+				return false
+			}
+			_, isP := origin(c.Common().Args[0]).(*ssa.Parameter)
+			return isP
+		}
+		deferOK, _ = mustPass(entryLoc(fn), isReturn, isClose, nil)
+	}
+	r.Check(deferOK, "R2", "xmpp.(*Client).recv#defer-close-quit", w.pos(fn.Pos()), "recv has an exit on which the keepalive's quit channel is not closed: the keepalive goroutine outlives the session", "quit channel closed on every exit (deferred close in the entry block, or an explicit close before every return)")
 	_ = quitParam
 	// other closes/sends on the quit channel in recv would double-close
 	nClose := 0
@@ -145,7 +156,19 @@ func runC12(w *World, r *Report, tier string) {
 			nClose++
 		}
 	})
-	r.Check(nClose == 1, "R2", "xmpp.(*Client).recv#single-close", w.pos(fn.Pos()), fmt.Sprintf("%d close() calls in recv: a second close of the quit channel panics", nClose), "one close")
+	// never closed twice on one path
+	maxClose := 0
+	walkPaths(entryLoc(fn), nil, nil, 50000, func(path []ssa.Instruction, end pathEnd) {
+		n := countOn(path, func(in ssa.Instruction) bool {
+			c := asCall(in)
+			return c != nil && w.callKey(c) == "builtin.close"
+		})
+		if n > maxClose {
+			maxClose = n
+		}
+	})
+	_ = nClose
+	r.Check(maxClose == 1, "R2", "xmpp.(*Client).recv#single-close", w.pos(fn.Pos()), fmt.Sprintf("up to %d close() calls on one path of recv: a second close of the quit channel panics", maxClose), "exactly one close per path")
 	nSites := 0
 	for _, f := range w.LibFuncs() {
 		recvs := w.callsIn(f, "xmpp.Client.recv")
